@@ -154,15 +154,36 @@ def check(ctx):
         m2["k1"] = {"p.go": "package k1\n\ntype Buf []byte\n\nfunc Fill(b Buf, x []byte) uint64 {\n\treturn uint64(copy(b, x))\n}\n\nfunc Other() uint64 {\n\treturn 3\n}\n"}
         m2["k0"] = {"p.go": "package k0\n\nfunc KeyArray() map[[2]byte]uint64 {\n\treturn nil\n}\n\nfunc KeyPtr() map[*uint64]uint64 {\n\treturn nil\n}\n\n"
                             "type R struct {\n\tf map[[3]uint64]bool\n}\n\nfunc Chan(c chan uint64) {\n\tc <- 1\n}\n\nfunc Sel(a [4]uint64) uint64 {\n\treturn a[1]\n}\n"}
+        # a package of several files with a conversion error in each (the files are parsed concurrently by the loader), and a package
+        # that reaches two FFIs (refused: the same refusal, or the same header, every time)
+        m2["mf"] = dict(("f%d.go" % i, "package mf\n\nfunc Sw%d(x uint64) uint64 {\n\tswitch x {\n\tcase %d:\n\t\treturn 1\n\t}\n\treturn 0\n}\n\nfunc Ok%d() uint64 {\n\treturn %d\n}\n" % (i, i, i, i))
+                        for i in range(8))
+        m2["both"] = {"p.go": "package both\n\nimport (\n\t\"github.com/goose-lang/goose/machine/async_disk\"\n\t\"github.com/goose-lang/goose/machine/disk\"\n)\n\n"
+                              "func Sizes(d disk.Disk, a async_disk.Disk) uint64 {\n\treturn d.Size() + a.Size()\n}\n"}
         root2 = os.path.join(scratch, "m2")
         gomod.write_module(root2, m2)
         first = None
+        first_tree = None
         for r in range(8 if ctx.tier == "quick" else 40):
             gmp = ["16", "4", "2", "1"][r % 4]
             rc, so, se = gomod.run_goose(root2, ["-ignore-errors"], ["./..."], out=os.path.join(scratch, "out2"), env_extra={"GOMAXPROCS": gmp})
             stats["error_list_runs"] += 1
+            tree2 = {rel: c for rel, (c, _, _) in gomod.tree(os.path.join(scratch, "out2")).items()}
+            shutil.rmtree(os.path.join(scratch, "out2"), ignore_errors=True)
             if first is None:
                 first = se
+                first_tree = tree2
+                # the errors of one package come file by file (sorted file names), top to bottom
+                mf_files = re.findall(r"^  src: \S*/mf/(f\d\.go):", se, re.M)
+                if mf_files != sorted(mf_files) or len(mf_files) != 8:
+                    viol("the errors of a package with several files are not listed file by file in the order of the file names",
+                         {"package": m2["mf"], "patterns": ["./..."], "flags": ["-ignore-errors"]}, ["f%d.go" % i for i in range(8)], mf_files)
+            elif tree2 != first_tree:
+                dif = sorted(k for k in set(tree2) | set(first_tree) if tree2.get(k) != first_tree.get(k))
+                viol("the files written differ between two runs over the same packages",
+                     {"sources": {d: {f: t[:400] for f, t in fs.items()} for d, fs in m2.items() if d in ("both", "mf", "k0", "k1")}, "patterns": ["./..."], "GOMAXPROCS": gmp, "flags": ["-ignore-errors"]},
+                     "identical files in every run", {"files_that_differ": dif[:4], "run_1": (first_tree.get(dif[0]) or b"").decode()[:400], "run_%d" % (r + 1): (tree2.get(dif[0]) or b"").decode()[:400]})
+                break
             elif se != first:
                 a, b = first.splitlines(), se.splitlines()
                 k = next((i for i in range(min(len(a), len(b))) if a[i] != b[i]), min(len(a), len(b)))
